@@ -19,7 +19,9 @@
   DisjunctionWithNullToOptional turns into the nullable `T`, and anonymous enums, which
   AnonymousEnumToExplicitType turns into references to new enum objects, under the decidable
   hypothesis that the generated names are fresh (`C01_pass_widening_ext_partial`, one more unit of
-  fuel).  The full statement is refuted (`C01_pass_widening_counterexample`: a generated name that
+  fuel); anonymous structs in type position, which AnonymousStructsToNamed turns into references
+  to new struct objects, again under freshness of the generated names
+  (`C01_pass_widening_struct_partial`, fragment `PlainS`).  The full statement is refuted (`C01_pass_widening_counterexample`: a generated name that
   overwrites a user definition).  The tie of `Plain`, `PlainX`, `srcDen` and of the pass models to
   the code is the `c01-src` stream (harness/c01_src.go).
 
@@ -36,6 +38,7 @@ import Cog.Sem.DenMono
 import Cog.Sem.WidenChain
 import Cog.Sem.WidenChainN
 import Cog.Sem.WidenWitness
+import Cog.Sem.WidenStruct
 import Cog.Gen.Chains
 namespace Cog.Sem
 open Cog.IR GoVal
@@ -260,6 +263,61 @@ example : PlainX exSrcN = true ∧ Plain exSrcN = false ∧
      | .ok S' => den 9 S' (.ref "p" "Root" {}) exSrcDocN && roundTripsOK S' "p" "Root" exSrcDocN
      | _ => false) = true := by
   refine ⟨by decide +kernel, by decide +kernel, by decide +kernel, by decide +kernel, by decide +kernel⟩
+
+/-! ### third extension: anonymous structs in type position (fragment `PlainS`) -/
+
+/-- Pass widening for the named objects of a pre-chain IR in `PlainS`, through the real regenerated Go
+    chain.  `PlainS S` (decidable) = `structFresh S` (well-formed object maps, objects declared in their
+    schema's package, the names AnonymousStructsToNamed generates — `<Pkg><Object><Field>…` — pairwise
+    different and different from the existing object names) ∧ `PlainX (asnS S)` (the output of that
+    pass, a computable function of `S`, lies in the fragment of `C01_pass_widening_ext_partial`).
+    Anonymous structs may sit in fields, array elements, map values, below `T | null`, and nest. -/
+theorem C01_pass_widening_struct_partial (S S' : Schemas) (hS : PlainS S = true)
+    (hrun : runChain goChain S = .ok S') (n : Nat) (pkg name : String) (j : Json)
+    (h : srcDen n S (.ref pkg name {}) j = true) : den (n + 1) S' (.ref pkg name {}) j = true :=
+  (widen_chainS goChain (by decide) S S' hS hrun).2 n pkg name j h
+
+/-- (c) + (d) for the named objects of a pre-chain IR with anonymous structs -/
+theorem C01_source_roundtrip_struct_partial (S S' : Schemas) (hS : PlainS S = true)
+    (hrun : runChain goChain S = .ok S') (n : Nat) (pkg name : String) (j : Json)
+    (h : srcDen n S (.ref pkg name {}) j = true) :
+    ∃ j', goRoundTrip (n + 1) S' pkg name j = .ok j' ∧ Json.eqv j' j = true :=
+  C01_object_roundtrip_partial S' (n + 1) pkg name j
+    (C01_pass_widening_struct_partial S S' hS hrun n pkg name j h)
+
+def innerStruct : Ty :=
+  .struct [{ name := "x", ty := tStr, required := true },
+           { name := "deep", ty := .struct [{ name := "k", ty := anonEnum, required := false }] [] none m0, required := false }] [] none m0
+
+def srcRootTyS : Ty :=
+  .struct [
+    { name := "name", ty := tStr, required := true },
+    { name := "opts", ty := innerStruct, required := false },
+    { name := "items", ty := .array (.struct [{ name := "v", ty := .scalar "int64" .nil [] m0, required := true }] [] none m0) m0, required := false },
+    { name := "maybe", ty := .disj [.struct [{ name := "w", ty := tStr, required := false }] [] none m0, tNull] {} m0, required := true }] [] none m0
+
+def exSrcS : Schemas :=
+  [{ pkg := "p", objects := [("Root", { name := "Root", selfPkg := "p", selfName := "Root", ty := srcRootTyS })] }]
+
+def exSrcDocS : Json :=
+  .obj [("name", .str "n"), ("maybe", .null),
+        ("opts", .obj [("x", .str "a"), ("deep", .obj [("k", .str "asc")])]),
+        ("items", .arr [.obj [("v", .num 4)], .obj [("v", .num 8)]])]
+
+/-- non-vacuity: in `PlainS`, not in `PlainX` (anonymous structs); hypotheses and conclusion hold -/
+example : PlainS exSrcS = true ∧ PlainX exSrcS = false ∧
+    srcDen 8 exSrcS (.ref "p" "Root" {}) exSrcDocS = true ∧
+    (match runChain goChain exSrcS with
+     | .ok S' => den 9 S' (.ref "p" "Root" {}) exSrcDocS && roundTripsOK S' "p" "Root" exSrcDocS
+     | _ => false) = true := by
+  refine ⟨by decide +kernel, by decide +kernel, by decide +kernel, by decide +kernel⟩
+
+/-- the witness of the counterexample below is exactly outside `PlainS`: its generated name is not fresh -/
+example : structFresh [{ pkg := "p", objects := [
+      ("A", { name := "A", selfPkg := "p", selfName := "A", ty :=
+        .struct [{ name := "b", ty := .struct [{ name := "x", ty := tStr, required := true }] [] none m0, required := true }] [] none m0 }),
+      ("PAB", { name := "PAB", selfPkg := "p", selfName := "PAB", ty := .struct [] [] none m0 })] }] = false := by
+  decide +kernel
 
 /-! ### the full statement of (c) is false on the current tree -/
 
